@@ -135,8 +135,11 @@ func (st *Stack) reloadOnce(names []string, reuseOpen bool) error {
 	}
 
 	var newTables []*Reader
+	// On failure, close the tables opened here; the reused ones
+	// stay in use by st.stack.
+	var opened []*Reader
 	defer func() {
-		for _, t := range newTables {
+		for _, t := range opened {
 			t.Close()
 		}
 	}()
@@ -153,15 +156,17 @@ func (st *Stack) reloadOnce(names []string, reuseOpen bool) error {
 
 			rd, err = NewReader(bs, name)
 			if err != nil {
+				bs.Close()
 				return fmt.Errorf("NewReader(%s): %v", name, err)
 			}
+			opened = append(opened, rd)
 		}
 		newTables = append(newTables, rd)
 	}
 
 	// success. Swap.
 	st.stack = newTables
-	newTables = nil
+	opened = nil
 	for _, old := range cur {
 		old.Close()
 
